@@ -75,3 +75,207 @@ def code_monitor(ctx, code, tag):
     for b in bad:
         ctx.monitor_fail('C07 fails on the real code: ' + b, {'code': tag, 'n_k_d': list(code.n_k_d)})
     return not bad
+
+
+# ----------------------------------------------------------------------------------------------- published data, guarded
+#
+# C07 promises, for EVERY constructible code, a set of published data.  Every access the C07 harness makes to it goes
+# through `published` (eagerly, each access on its own): an exception becomes a concrete monitor failure
+# 'constructible code … raises …' with {family, size, call} and the run continues with the next access / size.
+
+PUBLISHED = ('n_k_d', 'stabilizers', 'logical_xs', 'logical_zs', 'logicals', 'validate()', 'new_pauli()', 'label',
+             'repr()', '==', 'hash()')
+CORE = ('n_k_d', 'stabilizers', 'logical_xs', 'logical_zs')
+
+
+def _src():
+    import os
+    from qv.core import REPO
+    return os.path.realpath(os.path.join(REPO, 'src'))
+
+
+def from_qecsim(tb):
+    """does the traceback pass through the qecsim sources under test?"""
+    import os
+    import traceback
+    src = _src()
+    return any(os.path.realpath(fr.filename).startswith(src) for fr in traceback.extract_tb(tb))
+
+
+def where_raised(tb):
+    """(harness source line that made the call, 'file:line function' of the innermost qecsim frame)"""
+    import os
+    import traceback
+    src = _src()
+    call = inner = None
+    for fr in traceback.extract_tb(tb):
+        if os.path.realpath(fr.filename).startswith(src):
+            inner = '{}:{} {}'.format(os.path.relpath(os.path.realpath(fr.filename), src), fr.lineno, fr.name)
+        elif inner is None:
+            call = (fr.line or '').strip()
+    return call, inner
+
+
+def size_text(size):
+    return 'x'.join(str(int(s)) for s in size) if len(size) else ''
+
+
+def report_raises(ctx, family, size, call, ex, how=None, tb=None):
+    """one monitor failure per (family, size, call)"""
+    seen = ctx.__dict__.setdefault('_c07_raises_reported', set())
+    k = (family, tuple(size), call)
+    if k in seen:
+        return
+    seen.add(k)
+    inp = {'family': family, 'size': [int(s) for s in size], 'call': call, 'error': repr(ex)[:300]}
+    if how:
+        inp['how'] = how
+    if tb is not None:
+        line, inner = where_raised(tb)
+        if inner:
+            inp['raised_in'] = inner
+        if line and line != call:
+            inp['harness_line'] = line
+    ctx.monitor_fail('constructible code {} {} raises {} from {}'.format(family, size_text(size), type(ex).__name__,
+                                                                          call), inp)
+    ctx.count('c07_published_raises', '{} {}'.format(family, call))
+
+
+class Published:
+    """what one constructible code publishes; `ok` iff the constructor and the core data (n_k_d, stabilizers,
+    logical_xs, logical_zs) answered; `failed` lists every access that raised"""
+
+    def __init__(self, family, size):
+        self.family, self.size, self.code, self.failed = family, tuple(size), None, []
+        self.values = {}
+
+    @property
+    def ok(self):
+        return self.code is not None and not any(c in self.failed for c in CORE)
+
+    @property
+    def all_ok(self):
+        return self.code is not None and not self.failed
+
+
+def published(ctx, family, size, build, lattice=True):
+    """construct the code of `size` and read everything it publishes, each access guarded; value monitors on what
+    the accesses return (shapes of n_k_d, logicals = logical_xs over logical_zs, identity new_pauli, ==/hash of an
+    equal code)"""
+    import numbers
+    import sys
+    pub = Published(family, size)
+    tag = '{} {}'.format(family, size_text(size))
+
+    def get(call, f, how):
+        try:
+            v = f()
+        except Exception as ex:  # noqa: B902 — every exception is a failure of the property here
+            pub.failed.append(call)
+            report_raises(ctx, family, size, call, ex, how=how, tb=sys.exc_info()[2])
+            return False, None
+        pub.values[call] = v
+        return True, v
+    ok, code = get('constructor', build, 'Code({})'.format(', '.join(str(s) for s in size)))
+    if not ok:
+        return pub
+    pub.code = code
+    cls = type(code).__name__
+    ctor = '{}({})'.format(cls, ', '.join(str(int(s)) for s in size))
+    for name in ('n_k_d', 'stabilizers', 'logical_xs', 'logical_zs', 'logicals', 'label'):
+        get(name, lambda name=name: getattr(code, name), '{}.{}'.format(ctor, name))
+    get('validate()', code.validate, ctor + '.validate()')
+    if lattice:      # new_pauli is published by the lattice families only (not part of StabilizerCode)
+        get('new_pauli()', lambda: np.array(code.new_pauli().to_bsf()), ctor + '.new_pauli().to_bsf()')
+    get('repr()', lambda: repr(code), 'repr({})'.format(ctor))
+    ok2, other = get('constructor', build, ctor)
+    if ok2:
+        get('==', lambda: (code == other, code != other), '{0} == {0}'.format(ctor))
+        get('hash()', lambda: (hash(code), hash(other)), 'hash({})'.format(ctor))
+    ctx.count('c07_published', 'all accesses answer' if pub.all_ok else 'some access raises')
+    # ---- value monitors on what was returned
+    v = pub.values
+    bad = []
+    nkd = v.get('n_k_d')
+    n = k = None
+    if 'n_k_d' in v:
+        if not (isinstance(nkd, tuple) and len(nkd) == 3 and all(isinstance(x, numbers.Integral) for x in nkd[:2])):
+            bad.append(('n_k_d', 'n_k_d = {!r} is not a triple with integral n and k'.format(nkd)))
+        else:
+            n, k = int(nkd[0]), int(nkd[1])
+    for name in ('stabilizers', 'logical_xs', 'logical_zs', 'logicals'):
+        if name in v:
+            M = np.asarray(v[name])
+            if M.ndim != 2 or not set(np.unique(M).tolist()) <= {0, 1}:
+                bad.append((name, '{} is not a binary matrix (ndim {}, values {})'.format(
+                    name, M.ndim, np.unique(M).tolist()[:5])))
+    if all(x in v for x in ('logicals', 'logical_xs', 'logical_zs')) and not bad:
+        L = np.asarray(v['logicals']); want = np.vstack((np.atleast_2d(v['logical_xs']), np.atleast_2d(v['logical_zs'])))
+        if L.shape != want.shape or not np.array_equal(L, want):
+            bad.append(('logicals', 'logicals is not logical_xs stacked over logical_zs'))
+        if k is not None and L.shape[0] != 2 * k:
+            bad.append(('logicals', 'logicals has {} rows for k = {}'.format(L.shape[0], k)))
+    if 'new_pauli()' in v and n is not None:
+        b = np.asarray(v['new_pauli()'])
+        if b.shape != (2 * n,) or b.any():
+            bad.append(('new_pauli()', 'new_pauli() is not the identity on n = {} qubits (bsf length {}, weight {})'.format(
+                n, b.size, int(b.sum()))))
+    if 'label' in v and not (isinstance(v['label'], str) and v['label']):
+        bad.append(('label', 'label = {!r} is not a non-empty string'.format(v['label'])))
+    if '==' in v and (v['=='][0] is not True or v['=='][1] is not False):
+        bad.append(('==', 'two codes of the same size: == gives {!r}, != gives {!r}'.format(*v['=='])))
+    if 'hash()' in v and '==' in v and v['=='][0] is True and v['hash()'][0] != v['hash()'][1]:
+        bad.append(('hash()', 'equal codes have different hashes'))
+    for call, what in bad:
+        ctx.monitor_fail('C07 fails on the real code: ' + what, {'family': family, 'size': [int(s) for s in size],
+                                                                 'call': call, 'code': tag})
+    return pub
+
+
+def per_size(ctx, family, size, build, body):
+    """the structural cases of one size, guarded: first everything the code publishes (`published`), then `body(code,
+    *size)`; an exception raised inside qecsim while the body runs is a monitor failure naming the call, and the run
+    continues with the next size"""
+    import sys
+    pub = published(ctx, family, size, build)
+    if not pub.ok:
+        ctx.count('c07_size_skipped_unpublished', '{} {}'.format(family, size_text(size)))
+        return pub
+    try:
+        body(pub.code, *size)
+    except Exception as ex:  # noqa: B902
+        tb = sys.exc_info()[2]
+        if not from_qecsim(tb):
+            raise
+        line, inner = where_raised(tb)
+        report_raises(ctx, family, size, line or 'structural cases', ex, tb=tb)
+    return pub
+
+
+def strips(legal, bound, long_max, narrow=2):
+    """tall-narrow and short-wide extremes BEYOND the square grid [min..bound]^2, in both orientations: the narrow side
+    takes the `narrow` smallest legal values, the long side every legal value in (bound, long_max] — aspect ratios from
+    2 up to long_max / min, both parities of either side"""
+    legal = sorted(legal)
+    small = legal[:narrow]
+    longs = [v for v in legal if bound < v <= long_max]
+    out = []
+    for s in small:
+        for l in longs:
+            if l >= 2 * s:
+                out += [(l, s), (s, l)]
+    return out
+
+
+def grid_report(ctx, family, sizes):
+    """record the aspect-ratio coverage of a size grid in the evidence; Infra error if an orientation is missing"""
+    from qv import core
+    tall = [s for s in sizes if len(s) == 2 and s[0] >= 2 * s[1]]
+    wide = [s for s in sizes if len(s) == 2 and s[1] >= 2 * s[0]]
+    if sizes and len(sizes[0]) == 2 and (not tall or not wide):
+        raise core.Infra('size grid of {} lacks tall-narrow or short-wide sizes'.format(family))
+    if tall:
+        ctx.extra.setdefault('c07_size_grids', {})[family] = {
+            'sizes': len(sizes), 'rows>=2cols': len(tall), 'cols>=2rows': len(wide),
+            'max_rows/cols': round(max(s[0] / s[1] for s in tall), 2),
+            'max_cols/rows': round(max(s[1] / s[0] for s in wide), 2)}
